@@ -602,19 +602,451 @@ Proof.
   - (* unknown *)
     cbn [typedb] in Hty. destruct s; try discriminate.
     + destruct other; [discriminate|]. destruct v; try discriminate. destruct indef; [discriminate|].
-      destruct l as [|[k w] [|]]; try discriminate. destruct k; try discriminate.
+      destruct l as [|[k w] l']; try discriminate. destruct k; try discriminate. destruct l'; try discriminate.
       unfold unknown_text_ok in Hty. bsplit.
-      destruct (wf_norm_strip w H2) as (A & B & C).
+      match goal with Hw : value_wfb w = true |- _ => destruct (wf_norm_strip w Hw) as (A & B & C) end.
       exists (VMap false [(VText b, w)]). split; [reflexivity|].
       split; [apply okb_single_map; [apply text_ok_okb; assumption|assumption]|].
       split; [intro; discriminate|].
       intros o mk. rewrite norm_single. cbn [norm]. rewrite A, sdec_maybe, sdec_enum_map.
-      rewrite (find_variant_none o b w variants 0 (names_not_in variants b H3)), B. reflexivity.
+      rewrite (find_variant_none o b w variants 0 (names_not_in variants b ltac:(assumption))), B. reflexivity.
     + destruct other; [discriminate|]. destruct v; try discriminate.
       unfold unknown_tag_ok in Hty. bsplit.
-      destruct (wf_norm_strip v H2) as (A & B & C).
-      exists (VTag t v). split; [reflexivity|]. split; [cbn [value_okb]; rewrite H1, C; reflexivity|].
+      match goal with Hw : value_wfb v = true |- _ => destruct (wf_norm_strip v Hw) as (A & B & C) end.
+      match goal with Ht : (t <? W64) = true |- _ => exists (VTag t v); split; [reflexivity|]; split; [cbn [value_okb]; rewrite Ht, C; reflexivity|] end.
       split; [intro; discriminate|].
       intros o mk. cbn [norm]. rewrite A, sdec_maybe, sdec_enum_tagged.
-      rewrite (find_tagged_none o t v (VTag t v) variants 0 (tags_not_in variants t H3)), B. reflexivity.
+      rewrite (find_tagged_none o t v (VTag t v) variants 0 (tags_not_in variants t ltac:(assumption))), B. reflexivity.
 Qed.
+
+(** * Sorting: a stable insertion sort commutes with filtering, membership is preserved *)
+Lemma lex_leb_trans : forall a b c, lex_leb a b = true -> lex_leb b c = true -> lex_leb a c = true.
+Proof.
+  induction a as [|x a IH]; intros [|y b] [|z c] H1 H2; cbn [lex_leb] in *; try reflexivity; try discriminate.
+  destruct (N.ltb_spec x y).
+  - destruct (N.ltb_spec y z).
+    + destruct (N.ltb_spec x z); [reflexivity|lia].
+    + destruct (N.ltb_spec z y); [discriminate|]. assert (y = z) by lia. subst.
+      destruct (N.ltb_spec x z); [reflexivity|lia].
+  - destruct (N.ltb_spec y x); [discriminate|]. assert (x = y) by lia. subst.
+    destruct (N.ltb_spec y z); [reflexivity|].
+    destruct (N.ltb_spec z y); [discriminate|]. eapply IH; eassumption.
+Qed.
+
+Section Sorting.
+  Context {A : Type}.
+  Implicit Types (l : list (list N * A)) (x : list N * A).
+
+  Definition le_all x l : Prop := Forall (fun y => lex_leb (fst x) (fst y) = true) l.
+
+  Lemma sorted_cons_inv : forall x l, sortedb (map fst (x :: l)) = true -> sortedb (map fst l) = true /\ le_all x l.
+  Proof.
+    intros x l. revert x. induction l as [|y r IH]; intros x H; [split; [reflexivity|constructor]|].
+    cbn [map sortedb] in H. apply andb_true_iff in H. destruct H as [Hxy Hr].
+    split; [exact Hr|]. destruct (IH y Hr) as [_ Hy]. constructor; [exact Hxy|].
+    eapply Forall_impl; [|exact Hy]. intros z Hz. cbn in Hz. eapply lex_leb_trans; eassumption.
+  Qed.
+
+  Lemma insert_le_all : forall x l, le_all x l -> insert_sortedk x l = x :: l.
+  Proof. intros x [|y r] H; [reflexivity|]. inversion H; subst. cbn [insert_sortedk]. rewrite H2. reflexivity. Qed.
+
+  Variable p : list N * A -> bool.
+
+  Lemma filter_insert : forall x l, sortedb (map fst l) = true ->
+    filter p (insert_sortedk x l) = if p x then insert_sortedk x (filter p l) else filter p l.
+  Proof.
+    intros x l. induction l as [|y r IH]; intros Hs.
+    - cbn [insert_sortedk filter]. destruct (p x); reflexivity.
+    - destruct (sorted_cons_inv y r Hs) as [Hr Hy]. cbn [insert_sortedk].
+      destruct (lex_leb (fst x) (fst y)) eqn:E.
+      + (* x goes first *)
+        cbn [filter]. destruct (p x) eqn:Px; [|reflexivity].
+        assert (Hx : le_all x (filter p (y :: r))).
+        { unfold le_all. rewrite Forall_forall. intros z Hz. apply filter_In in Hz. destruct Hz as [Hz _].
+          destruct Hz as [<-|Hz]; [exact E|].
+          unfold le_all in Hy. rewrite Forall_forall in Hy. eapply lex_leb_trans; [exact E|]. apply Hy. exact Hz. }
+        cbn [filter] in Hx. rewrite (insert_le_all x _ Hx). reflexivity.
+      + cbn [filter]. rewrite (IH Hr). destruct (p y) eqn:Py; destruct (p x) eqn:Px; try reflexivity.
+        cbn [insert_sortedk]. rewrite E. reflexivity.
+  Qed.
+
+  Lemma isortk_sortedb : forall l, sortedb (map fst (isortk l)) = true.
+  Proof. intros l. rewrite map_fst_isortk. apply isort_sortedb. Qed.
+
+  Lemma filter_isortk : forall l, filter p (isortk l) = isortk (filter p l).
+  Proof.
+    induction l as [|x l IH]; [reflexivity|]. cbn [isortk fold_right]. fold (isortk l).
+    rewrite filter_insert by apply isortk_sortedb. rewrite IH. cbn [filter].
+    destruct (p x); reflexivity.
+  Qed.
+
+  Lemma In_insert : forall x y l, In y (insert_sortedk x l) <-> y = x \/ In y l.
+  Proof.
+    intros x y l. induction l as [|z r IH]; cbn [insert_sortedk].
+    - cbn. intuition.
+    - destruct (lex_leb (fst x) (fst z)); cbn [In]; [intuition|]. rewrite IH. intuition.
+  Qed.
+
+  Lemma In_isortk : forall y l, In y (isortk l) <-> In y l.
+  Proof.
+    intros y l. induction l as [|x l IH]; [reflexivity|]. cbn [isortk fold_right]. fold (isortk l).
+    rewrite In_insert, IH. cbn [In]. intuition.
+  Qed.
+End Sorting.
+
+(** * The field-assignment loop of the struct decoder *)
+Lemma nth_set_nth_same : forall {A} (l : list A) i y, (i < List.length l)%nat -> nth_error (set_nth i y l) i = Some y.
+Proof.
+  induction l as [|a l IH]; intros i y H; [cbn in H; lia|].
+  destruct i; cbn [set_nth nth_error]; [reflexivity|]. apply IH. cbn [List.length] in H. lia.
+Qed.
+
+Lemma set_nth_length : forall {A} (l : list A) i y, List.length (set_nth i y l) = List.length l.
+Proof. induction l as [|a l IH]; intros [|i] y; cbn [set_nth List.length]; try reflexivity. rewrite IH. reflexivity. Qed.
+
+Section Fold.
+  Variable o : unknown_keys.
+  Variable fields : list (key * schema).
+  Variable other : option okind.
+
+  Definition other_accepts (k : value) : Prop :=
+    match other with
+    | Some OString => exists b, k = VText b
+    | Some OMapKey => True
+    | None => False
+    end.
+
+  Definition entry_ok (e : value * value) : Prop :=
+    is_mapkey (fst e) = true /\
+    match find_field o (fst e) (snd e) fields 0 with
+    | Some (_, Some _) => True
+    | Some (_, None) => False
+    | None => other_accepts (fst e)
+    end.
+
+  Definition is_unk (e : value * value) : bool :=
+    match find_field o (fst e) (snd e) fields 0 with None => true | Some _ => false end.
+
+  Definition hit (i : nat) (e : value * value) : option sval :=
+    match find_field o (fst e) (snd e) fields 0 with
+    | Some (j, Some y) => if Nat.eqb j i then Some y else None
+    | _ => None
+    end.
+
+  Definition last_hit_from (i : nat) (P : list (value * value)) (acc : option sval) : option sval :=
+    fold_left (fun acc e => match hit i e with Some y => Some y | None => acc end) P acc.
+
+  Lemma last_hit_cons : forall i e P acc,
+    last_hit_from i (e :: P) acc = last_hit_from i P (match hit i e with Some y => Some y | None => acc end).
+  Proof. reflexivity. Qed.
+
+  Lemma last_hit_acc : forall i P y,
+    last_hit_from i P (Some y) = match last_hit_from i P None with Some y' => Some y' | None => Some y end.
+  Proof.
+    intros i P. induction P as [|e P IH]; intros y; [reflexivity|].
+    rewrite !last_hit_cons. destruct (hit i e) as [y'|].
+    - rewrite (IH y'). destruct (last_hit_from i P None); reflexivity.
+    - apply IH.
+  Qed.
+
+  Definition ups (acc : list (value * value)) (e : value * value) := upsert (fst e) (strip (snd e)) acc.
+
+  Lemma find_field_bound : forall k x fs n j r, find_field o k x fs n = Some (j, r) -> (n <= j < n + List.length fs)%nat.
+  Proof.
+    intros k x. induction fs as [|[fk fs'] fs IH]; intros n j r H; cbn [find_field] in H; [discriminate|].
+    destruct (key_matches fk k).
+    - inversion H; subst. cbn [List.length]. lia.
+    - apply IH in H. cbn [List.length]. lia.
+  Qed.
+
+  Lemma fold_struct : forall P slots oth,
+    List.length slots = List.length fields -> Forall entry_ok P ->
+    exists slots', fold_left (struct_step o fields other) P (Some (slots, oth))
+                   = Some (slots', fold_left ups (filter is_unk P) oth)
+      /\ List.length slots' = List.length fields
+      /\ forall i, nth_error slots' i =
+                   match last_hit_from i P None with Some y => Some (Some y) | None => nth_error slots i end.
+  Proof.
+    induction P as [|[k x] P IH]; intros slots oth Hl HP.
+    - exists slots. cbn. auto.
+    - inversion HP as [|? ? He HP']; subst. destruct He as [Hmk Hf]. cbn [fst snd] in Hmk, Hf.
+      cbn [fold_left filter]. unfold struct_step at 2. unfold is_unk at 1. cbn [fst snd]. rewrite Hmk. cbn [negb].
+      destruct (find_field o k x fields 0) as [[j [y|]]|] eqn:F; [| contradiction |].
+      + (* a declared field *)
+        pose proof (find_field_bound _ _ _ _ _ _ F) as Hj.
+        destruct (IH (set_nth j (Some y) slots) oth ltac:(rewrite set_nth_length; exact Hl) HP') as (slots' & E & L & Pt).
+        exists slots'. split; [exact E|]. split; [exact L|].
+        intros i. rewrite (Pt i), last_hit_cons. unfold hit at 1. cbn [fst snd]. rewrite F.
+        destruct (Nat.eqb_spec j i) as [->|Hne].
+        * rewrite last_hit_acc. destruct (last_hit_from i P None); [reflexivity|].
+          apply nth_set_nth_same. lia.
+        * destruct (last_hit_from i P None); [reflexivity|]. apply nth_set_nth_other. exact Hne.
+      + (* an undeclared key *)
+        assert (Step : (match other with
+                        | Some OString => match k with VText _ => Some (slots, upsert k (strip x) oth) | _ => None end
+                        | Some OMapKey => Some (slots, upsert k (strip x) oth)
+                        | None => match o with Fail => None | Ignore => Some (slots, oth) end
+                        end) = Some (slots, upsert k (strip x) oth)).
+        { unfold other_accepts in Hf. destruct other as [[|]|]; [destruct Hf as [b ->]; reflexivity|reflexivity|contradiction]. }
+        rewrite Step.
+        destruct (IH slots (upsert k (strip x) oth) Hl HP') as (slots' & E & L & Pt).
+        exists slots'. split; [exact E|]. split; [exact L|].
+        intros i. rewrite (Pt i), last_hit_cons. unfold hit at 1. cbn [fst snd]. rewrite F. reflexivity.
+  Qed.
+
+  (** entries hitting slot [i] all carry the same value, and there is one: that value ends up in the slot *)
+  Lemma last_hit_some : forall i P y,
+    (forall e y', In e P -> hit i e = Some y' -> y' = y) -> (exists e, In e P /\ hit i e = Some y) ->
+    last_hit_from i P None = Some y.
+  Proof.
+    intros i P y. induction P as [|e P IH]; intros Hall [e0 [Hin Hh]]; [destruct Hin|].
+    rewrite last_hit_cons.
+    destruct (hit i e) as [y'|] eqn:He.
+    - assert (y' = y) by (eapply Hall; [left; reflexivity|exact He]). subst y'.
+      rewrite last_hit_acc.
+      destruct (last_hit_from i P None) as [y2|] eqn:L; [|reflexivity].
+      (* a later hit carries y as well *)
+      assert (G : forall Q acc z, last_hit_from i Q acc = Some z -> acc = Some z \/ exists e, In e Q /\ hit i e = Some z).
+      { induction Q as [|q Q IHQ]; intros acc z Hq; [left; exact Hq|].
+        rewrite last_hit_cons in Hq.
+        apply IHQ in Hq. destruct Hq as [Hq|[e' [He' Hh']]].
+        - destruct (hit i q) eqn:Hq'; [right; exists q; split; [left; reflexivity|congruence]|left; exact Hq].
+        - right. exists e'. split; [right; exact He'|exact Hh']. }
+      apply G in L. destruct L as [L|[e' [He' Hh']]]; [discriminate|].
+      f_equal. eapply Hall; [right; exact He'|exact Hh'].
+    - destruct Hin as [<-|Hin]; [congruence|].
+      apply IH; [intros; eapply Hall; [right; eassumption|eassumption]|exists e0; auto].
+  Qed.
+
+  Lemma last_hit_none : forall i P, (forall e, In e P -> hit i e = None) -> last_hit_from i P None = None.
+  Proof.
+    intros i P. induction P as [|e P IH]; intros H; [reflexivity|].
+    rewrite last_hit_cons, (H e (or_introl eq_refl)). apply IH.
+    intros; apply H; right; assumption.
+  Qed.
+End Fold.
+
+(** the catch-all map: fresh keys are appended *)
+Lemma upsert_fresh : forall k x l, (forall e, In e l -> value_eqb k (fst e) = false) -> upsert k x l = l ++ [(k, x)].
+Proof.
+  induction l as [|[k' x'] l IH]; intros H; [reflexivity|].
+  cbn [upsert]. pose proof (H (k', x') (or_introl eq_refl)) as E. cbn [fst] in E. rewrite E. cbn [app]. f_equal. apply IH. intros; apply H; right; assumption.
+Qed.
+
+Lemma distinctb_app_mid : forall {A} (eqb : A -> A -> bool) l1 x l2,
+  distinctb eqb (l1 ++ x :: l2) = true -> forall a, In a l1 -> eqb a x = false.
+Proof.
+  induction l1 as [|y l1 IH]; intros x l2 H a Ha; [destruct Ha|].
+  cbn [app distinctb] in H. apply andb_true_iff in H. destruct H as [Hy Hr]. apply negb_true_iff in Hy.
+  destruct Ha as [<-|Ha].
+  - apply (existsb_false_In _ _ _ Hy). apply in_or_app. right. left. reflexivity.
+  - eapply IH; eassumption.
+Qed.
+
+Lemma fold_ups_fresh : forall others acc,
+  distinctb (fun a b => value_eqb b a) (map fst (acc ++ others)) = true ->
+  (forall e, In e others -> strip (snd e) = snd e) ->
+  fold_left ups others acc = acc ++ others.
+Proof.
+  induction others as [|[k x] others IH]; intros acc Hd Hs; [rewrite app_nil_r; reflexivity|].
+  cbn [fold_left]. unfold ups at 2. cbn [fst snd]. pose proof (Hs (k, x) (or_introl eq_refl)) as Es. cbn [snd] in Es. rewrite Es.
+  rewrite upsert_fresh.
+  - rewrite IH; [rewrite <- app_assoc; reflexivity| |intros; apply Hs; right; assumption].
+    rewrite <- app_assoc. exact Hd.
+  - intros e He. rewrite map_app in Hd. cbn [map fst] in Hd.
+    apply (distinctb_app_mid _ _ _ _ Hd (fst e)). apply in_map. exact He.
+Qed.
+
+(** * Structs *)
+Definition enc_fields : list (key * schema) -> list sval -> option (list (value * value)) :=
+  fix go (fs : list (key * schema)) (xs : list sval) : option (list (value * value)) :=
+    match fs, xs with
+    | [], [] => Some []
+    | (k, s') :: fs', y :: r =>
+      match senc s' y, go fs' r with
+      | Some v, Some es => Some (if is_null y then es else (key_value k, v) :: es)
+      | _, _ => None
+      end
+    | _, _ => None
+    end.
+
+Definition typed_fields : list (key * schema) -> list sval -> bool :=
+  fix go (fs : list (key * schema)) (xs : list sval) : bool :=
+    match fs, xs with
+    | [], [] => true
+    | (_, s') :: fs', y :: r => typedb s' y && go fs' r
+    | _, _ => false
+    end.
+
+Lemma senc_struct : forall fields other xs others,
+  senc (SStruct fields other) (XStruct xs others) =
+  match enc_fields fields xs with
+  | Some es => match other, others with None, _ :: _ => None | _, _ => Some (VMap false (es ++ others)) end
+  | None => None
+  end.
+Proof. reflexivity. Qed.
+
+Lemma typedb_struct : forall fields other xs others,
+  typedb (SStruct fields other) (XStruct xs others) =
+  (len xs + len others <? W64) && typed_fields fields xs && others_okb fields other others.
+Proof. reflexivity. Qed.
+
+Lemma null_typed : forall s x, schema_wfb s = true -> typedb s x = true -> is_null x = true -> null_of s = Some x.
+Proof.
+  induction s; intros x Hwf Hty Hn; destruct x; try discriminate Hn; try discriminate Hty; try reflexivity.
+  - (* SValue, XVal *) destruct v; try discriminate Hn. reflexivity.
+  - (* STag, XVal *) cbn [schema_wfb] in Hwf. bsplit. cbn [typedb] in Hty.
+    pose proof (IHs _ H0 Hty Hn) as E. destruct s; discriminate.
+  - cbn [schema_wfb] in Hwf. bsplit. cbn [typedb] in Hty.
+    pose proof (IHs _ H0 Hty Hn) as E. destruct s; discriminate.
+  - (* SRefine *) cbn [schema_wfb] in Hwf. bsplit. cbn [typedb] in Hty. bsplit.
+    pose proof (IHs _ H0 H2 Hn) as E. destruct s; discriminate.
+  - cbn [schema_wfb] in Hwf. bsplit. cbn [typedb] in Hty. bsplit.
+    pose proof (IHs _ H0 H2 Hn) as E. destruct s; discriminate.
+Qed.
+
+(** one row per declared field: key, schema, value, what the encoder writes for the value *)
+Definition row : Type := key * schema * sval * value.
+Definition rk (r : row) : key := fst (fst (fst r)).
+Definition rs (r : row) : schema := snd (fst (fst r)).
+Definition rx (r : row) : sval := snd (fst r).
+Definition rv (r : row) : value := snd r.
+Definition rf (r : row) : key * schema := (rk r, rs r).
+
+Definition row_ok (r : row) : Prop :=
+  key_ok (rk r) = true /\ senc (rs r) (rx r) = Some (rv r) /\ value_okb (rv r) = true /\
+  (forall o mk, sdec o (rs r) mk (norm (rv r)) = Some (rx r)) /\
+  (is_null (rx r) = true -> null_of (rs r) = Some (rx r)).
+
+Definition present (norm_it : bool) (rows : list row) : list (value * value) :=
+  flat_map (fun r => if is_null (rx r) then [] else [(key_value (rk r), if norm_it then norm (rv r) else rv r)]) rows.
+
+Lemma rows_exist : forall fields, Forall (fun f => RTS (snd f)) fields ->
+  forallb (fun f : key * schema => let '(k, s') := f in key_ok k && schema_wfb s') fields = true ->
+  forall xs, typed_fields fields xs = true ->
+  exists rows, map rf rows = fields /\ map rx rows = xs /\ Forall row_ok rows /\
+               enc_fields fields xs = Some (present false rows).
+Proof.
+  induction 1 as [|[k s] fields Hs Hfs IH]; intros Hwf xs Hty.
+  - destruct xs; [|discriminate]. exists []. repeat split; constructor.
+  - destruct xs as [|x xs]; [discriminate|]. cbn [typed_fields] in Hty. fold typed_fields in Hty. bsplit.
+    cbn [forallb] in Hwf. bsplit. cbn [snd] in Hs.
+    destruct (Hs H3 x H) as (v & E & Ok & _ & D).
+    destruct (IH H2 xs H0) as (rows & Ef & Ex & Hr & Ee).
+    exists ((k, s, x, v) :: rows).
+    split; [cbn [map]; rewrite Ef; reflexivity|]. split; [cbn [map]; rewrite Ex; reflexivity|]. split.
+    + constructor; [|exact Hr]. unfold row_ok, rk, rs, rx, rv. cbn [fst snd].
+      split; [exact H1|]. split; [exact E|]. split; [exact Ok|]. split; [exact D|].
+      apply null_typed; assumption.
+    + cbn [enc_fields]. fold enc_fields. rewrite E, Ee. cbn [present flat_map]. unfold rx, rk, rv. cbn [fst snd].
+      destruct (is_null x); reflexivity.
+Qed.
+
+Lemma find_field_at : forall o w fs i n k s,
+  distinctb (fun a b => key_matches a (key_value b)) (map fst fs) = true ->
+  nth_error fs i = Some (k, s) ->
+  find_field o (key_value k) w fs n = Some ((n + i)%nat, sdec o s false w).
+Proof.
+  induction fs as [|[k0 s0] fs IH]; intros i n k s Hd H; [destruct i; discriminate|].
+  cbn [map distinctb fst] in Hd. bsplit. destruct i; cbn [nth_error] in H.
+  - inversion H; subst. cbn [find_field]. rewrite key_matches_refl, Nat.add_0_r. reflexivity.
+  - cbn [find_field].
+    assert (E : key_matches k0 (key_value k) = false).
+    { apply (existsb_false_In _ _ _ H0). apply nth_error_In in H. apply (in_map fst) in H. exact H. }
+    rewrite E. rewrite (IH i (S n) k s H1 H). f_equal. f_equal. lia.
+Qed.
+
+Lemma fin_spec : forall rows fields slots,
+  map rf rows = fields -> Forall row_ok rows ->
+  (forall i r, nth_error rows i = Some r -> nth_error slots i = Some (if is_null (rx r) then None else Some (rx r))) ->
+  struct_fin fields slots = Some (map rx rows).
+Proof.
+  induction rows as [|r rows IH]; intros fields slots Ef Hr Hs.
+  - subst fields. reflexivity.
+  - subst fields. inversion Hr as [|? ? Hr0 Hr']; subst. cbn [map]. unfold rf at 1.
+    pose proof (Hs O r eq_refl) as H0. destruct slots as [|sl slots]; [discriminate|]. cbn [nth_error] in H0.
+    inversion H0; subst sl. cbn [struct_fin].
+    rewrite (IH (map rf rows) slots eq_refl Hr' (fun i r' H => Hs (S i) r' H)).
+    destruct Hr0 as (_ & _ & _ & _ & Hnull).
+    destruct (is_null (rx r)) eqn:En; [rewrite (Hnull eq_refl)|]; reflexivity.
+Qed.
+
+Definition gk (kv : value * value) : list N * (value * value) :=
+  let '(k, x) := kv in (encode k ++ encode x, (norm k, norm x)).
+
+Lemma keyed_gk : forall l, keyed l = map gk l.
+Proof. reflexivity. Qed.
+
+Lemma norm_key_value : forall k, norm (key_value k) = key_value k.
+Proof. destruct k; reflexivity. Qed.
+
+Lemma In_present : forall b rows e,
+  In e (present b rows) <->
+  exists r, In r rows /\ is_null (rx r) = false /\ e = (key_value (rk r), if b then norm (rv r) else rv r).
+Proof.
+  intros b rows e. unfold present. rewrite in_flat_map. split.
+  - intros [r [Hr He]]. exists r. destruct (is_null (rx r)); [destruct He|].
+    destruct He as [<-|[]]. auto.
+  - intros [r [Hr [Hn ->]]]. exists r. split; [exact Hr|]. rewrite Hn. left. reflexivity.
+Qed.
+
+Lemma present_length : forall b rows, (List.length (present b rows) <= List.length rows)%nat.
+Proof.
+  induction rows as [|r rows IH]; [cbn; lia|]. cbn [present flat_map List.length]. rewrite app_length.
+  fold (present b rows). destruct (is_null (rx r)); cbn [List.length]; lia.
+Qed.
+
+Lemma present_norm : forall rows, map (fun e => snd (gk e)) (present false rows) = present true rows.
+Proof.
+  induction rows as [|r rows IH]; [reflexivity|]. cbn [present flat_map]. rewrite map_app.
+  fold (present false rows). fold (present true rows). rewrite IH. f_equal.
+  destruct (is_null (rx r)); [reflexivity|]. cbn [map gk snd]. rewrite norm_key_value. reflexivity.
+Qed.
+
+Lemma filter_map_comm : forall {A B} (f : A -> B) (p : B -> bool) l, filter p (map f l) = map f (filter (fun a => p (f a)) l).
+Proof. induction l as [|a l IH]; [reflexivity|]. cbn [map filter]. destruct (p (f a)); cbn [map]; rewrite IH; reflexivity. Qed.
+
+Lemma filter_all_false : forall {A} (p : A -> bool) l, (forall a, In a l -> p a = false) -> filter p l = [].
+Proof. induction l as [|a l IH]; intros H; [reflexivity|]. cbn [filter]. rewrite (H a (or_introl eq_refl)). apply IH. intros; apply H; right; assumption. Qed.
+
+Lemma filter_all_true : forall {A} (p : A -> bool) l, (forall a, In a l -> p a = true) -> filter p l = l.
+Proof. induction l as [|a l IH]; intros H; [reflexivity|]. cbn [filter]. rewrite (H a (or_introl eq_refl)). f_equal. apply IH. intros; apply H; right; assumption. Qed.
+
+Definition other_entry_ok (fields : list (key * schema)) (other : option okind) (e : value * value) : Prop :=
+  (exists kind, other = Some kind /\ other_key_ok kind (fst e) = true) /\ value_wfb (snd e) = true /\
+  (forall fk fs', In (fk, fs') fields -> key_matches fk (fst e) = false).
+
+Lemma others_facts : forall fields other others, others_okb fields other others = true ->
+  Forall (other_entry_ok fields other) others /\
+  distinctb (fun a b => value_eqb b a) (map fst others) = true /\
+  sortedb (map enc_entry others) = true.
+Proof.
+  intros fields other others H. unfold others_okb in H. destruct other as [kind|].
+  - bsplit. split; [|split; assumption].
+    rewrite forallb_Forall in H. eapply Forall_impl; [|exact H]. intros [k v] Hkv. cbn in Hkv. bsplit.
+    unfold other_entry_ok. cbn [fst snd]. split; [exists kind; auto|]. split; [assumption|].
+    intros fk fs' Hin. rewrite forallb_forall in H2. specialize (H2 _ Hin). cbn [fst] in H2.
+    apply negb_true_iff in H2. exact H2.
+  - destruct others; [|discriminate]. repeat split; constructor.
+Qed.
+
+Lemma other_entry_norm : forall fields other e, other_entry_ok fields other e -> snd (gk e) = e /\ strip (snd e) = snd e.
+Proof.
+  intros fields other [k v] ([kind [_ Hk]] & Hv & _). cbn [fst snd] in *.
+  destruct (wf_norm_strip v Hv) as (A & B & _). cbn [gk snd]. rewrite A. split; [|exact B].
+  destruct k; try discriminate Hk; reflexivity.
+Qed.
+
+Section StructFacts.
+  Variable o : unknown_keys.
+  Variable fields : list (key * schema).
+  Variable other : option okind.
+  Hypothesis Hdist : distinctb (fun a b => key_matches a (key_value b)) (map fst fields) = true.
+
+  Lemma find_present : forall i k s w, nth_error fields i = Some (k, s) ->
+    find_field o (key_value k) w fields 0 = Some (i, sdec o s false w).
+  Proof. intros. rewrite (find_field_at o w fields i 0 k s Hdist H). reflexivity. Qed.
+
+  Lemma find_other : forall e, other_entry_ok fields other e -> find_field o (fst e) (snd e) fields 0 = None.
+  Proof. intros e (_ & _ & H). apply find_field_none. exact H. Qed.
+End StructFacts.
